@@ -225,6 +225,7 @@ Proof.
   - specialize (Ir _ _ Hx). fin.
   - specialize (Ir _ _ Hx). rewrite sumf_app. simpl. fin.
   - specialize (Ir _ _ Hx). fin.
+  - specialize (Ir _ _ Hx). fin.
   - (* EStart *)
     destruct (Nat.eq_dec j jj).
     + subst. erewrite nth_error_upd_eq in Hx by eauto. inversion Hx; subst. simpl.
@@ -813,9 +814,10 @@ Qed.
 
 Lemma never_stuck : forall l d es s j, 1 <= l ->
   steps (init l d) es = Some s -> j < length (jobs s) -> delivered s j = 0 ->
+  (forall dd, nth_error (disp s) dd <> Some (DFailed j)) ->
   exists es' s', steps s es' = Some s' /\ delivered s' j = 1.
 Proof.
-  intros l d es s j L H Hj D.
+  intros l d es s j L H Hj D NF.
   pose proof (reachable_inv _ _ _ _ L H) as I.
   assert (Hh : holders s j = 1). { destruct I as [_ _ Ih _ _ _ _ _ _ _]. specialize (Ih _ Hj). lia. }
   unfold holders in Hh.
@@ -836,6 +838,7 @@ Proof.
     + eapply fin_full; eauto.
     + eapply fin_spawn; eauto.
     + eapply fin_rejected; eauto.
+    + exfalso. eapply NF; eauto.
 Qed.
 
 (* ---------------------------------------------------------------------- *)
@@ -1024,4 +1027,59 @@ Proof.
   destruct (Ie _ He) as (x & A & B & _). destruct (Iw _ Hin) as (y & A' & B').
   destruct e as [[a b] c]. simpl in *. subst. exists c.
   rewrite A in A'. inversion A'; subst. exact He.
+Qed.
+
+(* ---------------------------------------------------------------------- *)
+(* the OS refuses the thread when the pool must grow *)
+
+Lemma spawn_failure_visible : forall l d es s dd s', 1 <= l ->
+  steps (init l d) es = Some s -> step s (ESpawnFail dd) = Some s' ->
+  exists j x,
+    nth_error (disp s) dd = Some (DSpawn j) /\ nth_error (disp s') dd = Some (DFailed j) /\
+    S (counter s') = counter s /\ counter s' = alive s' + reserved s' /\
+    work s' = work s /\ jobs s' = jobs s /\ completed s' = completed s /\
+    nth_error (jobs s') j = Some x /\ runs x = 0 /\ delivered s' j = 0 /\
+    sumf (hw j) (work s') = 0.
+Proof.
+  intros l d es s dd s' L H Hs.
+  pose proof (reachable_inv _ _ _ _ L H) as I.
+  pose proof (step_inv _ _ _ Hs I) as I'.
+  unfold step in Hs. break_step Hs.
+  assert (Hd' : nth_error (disp (set_counter (set_d s dd (DFailed j)) n)) dd = Some (DFailed j)).
+  { fld. eapply nth_error_upd_eq; eauto. }
+  destruct (hd_holder_unique _ j _ _ I' Hd') as (A & B & C & D).
+  { simpl. apply b2n_eqb_refl. }
+  destruct (nth_error (jobs (set_counter (set_d s dd (DFailed j)) n)) j) as [x|] eqn:Hx.
+  2:{ apply nth_error_None in Hx. lia. }
+  exists j, x. repeat split; auto.
+  - destruct I' as [Ic _ _ _ _ _ _ _ _ _]. exact Ic.
+  - destruct I' as [_ _ _ _ Ir _ _ _ _ _]. specialize (Ir _ _ Hx).
+    pose proof (sumf_le _ (rw j) (hw j) (work (set_counter (set_d s dd (DFailed j)) n)) (rw_le_hw j)).
+    unfold running_j in Ir. lia.
+Qed.
+
+(* a dispatcher whose spawn failed never returns Ok for that call: it stays in
+   DFailed whatever happens, and the job is never run or delivered *)
+Lemma failed_stays_failed : forall s e s' dd j,
+  nth_error (disp s) dd = Some (DFailed j) -> step s e = Some s' ->
+  nth_error (disp s') dd = Some (DFailed j).
+Proof.
+  intros s e s' dd j Hd H. unfold step, step_common in H.
+  destruct e; break_step H; fld; auto;
+    try (destruct (Nat.eq_dec d dd) as [E|E];
+         [subst; congruence | rewrite nth_error_upd_ne by auto; exact Hd]).
+Qed.
+
+Lemma failed_never_runs : forall l d es s dd j x, 1 <= l ->
+  steps (init l d) es = Some s -> nth_error (disp s) dd = Some (DFailed j) ->
+  nth_error (jobs s) j = Some x ->
+  runs x = 0 /\ delivered s j = 0 /\ sumf (hw j) (work s) = 0.
+Proof.
+  intros l d es s dd j x L H Hd Hx.
+  pose proof (reachable_inv _ _ _ _ L H) as I.
+  destruct (hd_holder_unique _ j _ _ I Hd) as (A & B & C & D).
+  { simpl. apply b2n_eqb_refl. }
+  destruct I as [_ _ _ _ Ir _ _ _ _ _]. specialize (Ir _ _ Hx).
+  pose proof (sumf_le _ (rw j) (hw j) (work s) (rw_le_hw j)). unfold running_j in Ir.
+  repeat split; auto. lia.
 Qed.
